@@ -200,7 +200,7 @@ def worker(cfg):
     if not nondegenerate(cfg):
         res['skip'] = 'degenerate (C-V loop, L-I cutset, pole at s=0 or ill-posed): oracle rank tests'
         return res
-    out = sx.run_symbolic(execute, cfg, cirlib.patched_modules(), rounds=0, symbolic_labels=cfg.get('symlabels', False), seed=driver.seed_of(), max_paths=400, simplify=True)
+    out = sx.run_symbolic(execute, cfg, cirlib.patched_modules(), rounds=0, symbolic_labels=cfg.get('symlabels', False), seed=driver.seed_of(), max_paths=400, simplify=True, wide_probe=True)
     for v in out['violations']:
         v['sig'].update({'what': cfg['what'], 'kinds': sorted({c[3] for c in cfg['components']})}); v['pid'] = cfg['what']
     res.update({k: out[k] for k in ('paths', 'obligations', 'discharged', 'queries', 'violations', 'inconclusive', 'out_of_bound')})
